@@ -9,7 +9,7 @@ import (
 // C10 — blocked callers are woken when capacity frees (no lost wake-up / hand-off).
 func init() {
 	Register(&Prop{
-		ID: "C10", Bubble: true, Run: runC10, QuickRuns: 2500,
+		ID: "C10", Bubble: true, Run: runC10, QuickRuns: 4000,
 		ExpectedProbes: []string{"release_overlapped_waiter_midop", "release_while_waiter_asleep"},
 		Rule: "one run = one seeded scenario (limiter kind, strategy, limit 1..3, timeout, 1..3 waiters, releases with random outcomes) under one seeded schedule; " +
 			"non-trivial = a release step executed while some waiter was parked at a scheduling point inside Acquire (between 'attempt failed' and 'asleep') or already asleep; " +
